@@ -27,7 +27,10 @@ EXPLANATION = (
     "selected triples; thorough: all triples) against an independently written reference registry: identical record for "
     "a repeated (name, spin), also inside one request, distinct records otherwise, requested name/space/spin, generic "
     "names i3.. that were never handed out or requested before, result order, every returned record known to "
-    "is_cached_index. R08e: Term.substitute_contracted / substitute_with_generic are evaluated on abstract terms "
+    "is_cached_index (a history ends where an explicit request names an index that was handed out as generic index; "
+    "that situation is decided by its own clause: such a request must be refused or deliver a distinct symbol, because "
+    "the generic name is the name of a contracted index of live, possibly cached expressions - key 'explicit request "
+    "aliases generic index', known finding F52 on the current tree). R08e: Term.substitute_contracted / substitute_with_generic are evaluated on abstract terms "
     "(index counter with multiplicities, provided or counted target indices, spins) with the real registry code "
     "underneath: the map handed to order_substitutions has exactly the contracted indices as keys, the images are "
     "the registry records of the lowest names of the same space that no target index of the same (space, spin) "
@@ -37,6 +40,11 @@ EXPLANATION = (
     "indices. R08f: order_substitutions on all 625 maps over four indices (sequential == simultaneous), "
     "get_lowest_avail_indices / split_idx_string / index_space against reference tables, Container.permute on all "
     "sequences of up to three transpositions over four indices (composed list == transpositions one after another). "
+    "PermutationProduct.__new__ / split_in_separable_parts / Permutation.__new__ evaluated on operator sequences built "
+    "from every ordered chain of up to three (thorough: four) distinct links between index classes (class = space + "
+    "spin: o, v, g, oa, vb, ...) with a transposition inside every class in front of / behind / around the links: the "
+    "stored product consists of the given operators and is the same permutation of every index tuple as the given "
+    "sequence (only operators without a common index may change places). "
     "R08g: minimize_tensor_indices on all 620 index tuples of length <= 3 over {i,j,k,a,b} x 4 target sets plus "
     "spin cases: targets stay, the other indices get the lowest unused names per (space, spin) in order of first "
     "appearance, and the returned permutations reproduce the result.")
@@ -424,6 +432,16 @@ class RefRegistry:
 
     def __init__(self):
         self.obj, self.pool, self.counter, self.n = {}, {}, {}, 0
+        self.generic_keys = set()       # (space, spin, name) handed out as generic (= contracted) index
+
+    def names_generic(self, names, spins):
+        """Does an explicit request name an index that was handed out as generic index before?"""
+        names = _split(names) if isinstance(names, str) else list(names)
+        spins = [""] * len(names) if spins is None else list(spins)
+        try:
+            return any((_space(nm), s, nm) in self.generic_keys for nm, s in zip(names, spins))
+        except KeyError:
+            return False
 
     def get(self, name, spin):
         sp = _space(name)
@@ -460,6 +478,7 @@ class RefRegistry:
                 c = self.counter.get((sp, spin), FIRST_GENERIC)
                 pool.extend(b + str(c) for b in BASE[sp] if (sp, spin, b + str(c)) not in self.obj)
                 self.counter[(sp, spin)] = c + 1
+            self.generic_keys.update((sp, spin, nm) for nm in pool[:n])
             out.update(self.get_indices(pool[:n], [spin] * n))
         return out
 
@@ -499,6 +518,8 @@ def _history(ctx, seq):
     observed = []
     for step, op in enumerate(seq):
         kind, a, b = op
+        if kind != "gen" and ref.names_generic(a, b):
+            break       # an explicit request of a generic name: decided by the aliasing clause, the history ends here
         if kind == "get":
             o = w.outcome(f"{REG}.get_indices", self=w.reg, indices=a if isinstance(a, str) else list(a), spins=b if b is None or isinstance(b, str) else list(b))
         elif kind == "gen":
@@ -540,6 +561,43 @@ def _history(ctx, seq):
     return None
 
 
+def _generic_aliasing(ctx):
+    """A name handed out by get_generic_indices is the name of a contracted index of some live (possibly cached)
+    expression.  A later explicit request of that name (a user's target index string) must not deliver that very
+    symbol: target and contracted index would be merged.  Either the request is refused or a distinct symbol is made."""
+    rule = "R08d"
+    fn = ctx.model.fn(f"{REG}.get_indices")
+    found = []
+    n = 0
+    for request, spin in (({"occ": 1}, ""), ({"virt_a": 2}, "a"), ({"general": 9}, ""), ({"occ_b": 1, "virt": 1}, "")):
+        for via in ("get_indices", "get_symbols"):
+            w = World(ctx, what="generic aliasing")
+            o = w.outcome(f"{REG}.get_generic_indices", self=w.reg, kwargs=dict(request))
+            if o.kind != "return" or not isinstance(o.value, dict):
+                continue        # the histories report a registry that does not hand out generic indices
+            for key, recs in o.value.items():
+                for g in recs:
+                    if not isinstance(g, Obj):
+                        continue
+                    nm, sp = g.attrs.get("name"), w.space_spin(g)[1]
+                    n += 1
+                    if via == "get_indices":
+                        o2 = w.outcome(fn, self=w.reg, indices=[nm], spins=[sp])
+                        got = [r for v in o2.value.values() for r in v] if o2.kind == "return" and isinstance(o2.value, dict) else []
+                    else:
+                        o2 = w.outcome("indices:get_symbols", indices=[nm], spins=sp or None)
+                        got = list(o2.value) if o2.kind == "return" and isinstance(o2.value, list) else []
+                    if any(r is g for r in got):
+                        found.append(f"get_generic_indices({', '.join(f'{k}={v}' for k, v in request.items())}) hands out "
+                                     f"{w.describe(g)}; {via}({nm!r}{', ' + repr(sp) if sp else ''}) afterwards returns the same symbol")
+    if not n:
+        raise AnalysisError("R08d: no generic index was handed out in the aliasing scenarios")
+    ctx.check(rule, fn, not found, f"{n} explicit requests of names that were handed out as generic indices: refused or distinct symbols",
+              f"{len(found)} of {n} explicit requests of a name that was handed out as generic (contracted) index return that very symbol, "
+              f"e.g. {found[0] if found else ''}: a user's target index (j3, i3, a3, ...) is merged with a contracted index of cached "
+              "expressions", fn=f"{REG}.get_indices", key="explicit request aliases generic index")
+
+
 def r08d(ctx):
     rule = "R08d"
     fn = ctx.model.fn(f"{REG}.get_indices")
@@ -557,6 +615,7 @@ def r08d(ctx):
         ctx.check(rule, fn, msg is None, f"history [{label}] behaves like the documented registry",
                   f"request history [{label}]: {msg}", fn=REG, key=f"history {label}")
     ctx.floor(rule, "request histories evaluated", n, 150)
+    _generic_aliasing(ctx)
     # the constructor and the decoding properties: round trip over all (space, spin)
     w = World(ctx, what="_new_symbol")
     ns = ctx.model.fn(f"{REG}._new_symbol")
@@ -845,6 +904,97 @@ def r08f(ctx):
                   key=f"permute {show}")
 
 
+# ---------------------------------------------------------------------- R08f: products of permutation operators
+
+
+PCLASSES = {"o": ("il", None), "v": ("ab", None), "g": ("pq", None), "oa": ("ij", "aa"), "vb": ("ab", "bb"), "ob": ("ik", "bb"),
+            "va": ("cd", "aa")}
+
+
+def r08f_product(ctx):
+    """PermutationProduct (the reordering constructor) evaluated: the stored order of the transpositions has to be
+    the same permutation of every index tuple as the given sequence, i.e. only operators without a common index may
+    change places.  Exhaustive over ordered sequences of distinct links between index classes (class = space + spin),
+    each followed / preceded by one transposition inside every class that takes part."""
+    rule = "R08f"
+    new = ctx.model.fn("symmetry:PermutationProduct.__new__")
+    pnew = ctx.model.fn("symmetry:Permutation.__new__")
+    sup = Obj(None, "super")
+    sup.attrs["__new__"] = lambda sx, a, kw: tuple(a[1])
+    w = World(ctx, what="PermutationProduct", hooks={"super": lambda sx, a, kw: sup})
+    sym_mod = ctx.model.module("symmetry")
+    product_cls, perm_cls = ClassRef(sym_mod, "PermutationProduct"), ClassRef(sym_mod, "Permutation")
+    idx = {}
+    for c, (names, spins) in PCLASSES.items():
+        recs = w.symbols(names, spins)
+        if recs is None:
+            ctx.bad(rule, new, "the registry does not deliver the requested index records (see R08d)", key="product setup")
+            return
+        idx[c] = recs
+    universe = [r for recs in idx.values() for r in recs]
+    cache = {}
+
+    def transposition(x, y):
+        if (id(x), id(y)) not in cache:
+            v = w.call(pnew, cls=perm_cls, p=x, q=y)
+            if not (isinstance(v, tuple) and len(v) == 2 and ((v[0] is x and v[1] is y) or (v[0] is y and v[1] is x))):
+                raise _Failed(f"Permutation({w.describe(x)}, {w.describe(y)}) is {v!r}")
+            cache[(id(x), id(y))] = v
+        return cache[(id(x), id(y))]
+
+    def apply(perms, items):
+        cur = list(items)
+        for p, q in perms:
+            cur = [q if c is p else p if c is q else c for c in cur]
+        return cur
+
+    def show(perms):
+        return " ".join(f"P[{w.describe(p)} {w.describe(q)}]" for p, q in perms) or "1"
+
+    def evaluate(seq, label):
+        o = w.outcome(new, cls=product_cls, args=tuple(seq))
+        if o.kind != "return" or not isinstance(o.value, tuple) or not all(isinstance(x, tuple) and len(x) == 2 for x in o.value):
+            ctx.bad(rule, new, f"PermutationProduct({show(seq)}): {o}", fn="symmetry:PermutationProduct", key=f"product {label}")
+            return
+        out = list(o.value)
+        same_ops = len(out) == len(seq) and all(sum(1 for y in out if y is x) == sum(1 for y in seq if y is x) for x in seq)
+        got, want = apply(out, universe), apply(seq, universe)
+        ok = same_ops and all(g is x for g, x in zip(got, want))
+        swapped = next(((show([a]), show([b])) for k, a in enumerate(seq) for b in seq[k + 1:]
+                        if any(x is y for x in a for y in b) and any(u is b for u in out[:next((m for m, u in enumerate(out) if u is a), 0)])), None)
+        ctx.check(rule, new, ok, f"{label}: the stored product is the given sequence up to operators without a common index",
+                  f"PermutationProduct({show(seq)}) stores {show(out)}: "
+                  + (f"{swapped[1]} was moved in front of {swapped[0]} although they share an index; " if swapped else "")
+                  + f"applied one after another the given sequence maps {[w.describe(x) for x in universe]} to "
+                  f"{[w.describe(x) for x in want]}, the stored product to {[w.describe(x) for x in got]}",
+                  fn="symmetry:PermutationProduct", key=f"product {label}")
+
+    five, four, spin4 = ["o", "v", "g", "oa", "vb"], ["o", "g", "oa", "v"], ["oa", "ob", "va", "vb"]
+    # (classes, chain lengths, variants)
+    if ctx.tier != "thorough":
+        plans = [(five, (0, 1, 2), 2), (four, (3,), 3)]
+    else:
+        plans = [(five, (0, 1, 2, 3), 3), (four, (4,), 2), (spin4, (3,), 3), (list(PCLASSES), (2,), 2)]
+    n = 0
+    try:
+        for names, lengths, variants in plans:
+            links = list(itertools.combinations(names, 2))
+            for k in lengths:
+                for chain_ in itertools.permutations(links, k):
+                    used = sorted({c for l in chain_ for c in l}, key=names.index) or names[:2]
+                    link_ops = [transposition(idx[a][0], idx[b][0]) for a, b in chain_]
+                    inner = [transposition(idx[c][0], idx[c][1]) for c in used]
+                    label = ",".join(f"{a}-{b}" for a, b in chain_) or f"no link {names[0]} {names[1]}"
+                    for seq, how in ((link_ops + inner, "links first"), (inner + link_ops, "links last"),
+                                     (inner[::-1] + link_ops[::-1] + inner, "mixed"))[:variants]:
+                        n += 1
+                        evaluate(seq, f"{label} ({how})")
+    except _Failed as e:
+        ctx.bad(rule, pnew, str(e), fn="symmetry:Permutation", key="transposition")
+        return
+    ctx.floor(rule, "operator sequences handed to PermutationProduct", n, 500)
+
+
 # ---------------------------------------------------------------------- R08g
 
 
@@ -914,6 +1064,7 @@ def r08g(ctx):
 def run(ctx):
     if ctx.want("R08a"):
         r08a(ctx, modules=None if ctx.tier == "thorough" else {"expr_container", "indices", "simplify", "func"})
-    for r, f in (("R08b", r08b), ("R08c", r08c), ("R08d", r08d), ("R08e", r08e), ("R08f", r08f), ("R08g", r08g)):
+    for r, f in (("R08b", r08b), ("R08c", r08c), ("R08d", r08d), ("R08e", r08e), ("R08f", r08f), ("R08f", r08f_product),
+                 ("R08g", r08g)):
         if ctx.want(r):
             f(ctx)
